@@ -18,6 +18,7 @@ import (
 	"github.com/sdcio/data-server/pkg/cache"
 	dconfig "github.com/sdcio/data-server/pkg/config"
 	"github.com/sdcio/data-server/pkg/tree"
+	"github.com/sdcio/data-server/pkg/utils"
 	"github.com/sdcio/data-server/pkg/verifrt"
 	sdcpb "github.com/sdcio/sdc-protos/sdcpb"
 )
@@ -44,6 +45,14 @@ type c17Scenario struct {
 	// the old intent, the other intents and running are not loaded, so that the validators load what they need
 	// on demand, including the indexes of the tree cache client
 	Bare bool
+	// DropRunning: after the set-up the device (and with it the running store) lost these subtrees, so that the
+	// entries the transaction removes have no running variant left
+	DropRunning []Path
+	// MapOrder: the iteration order of every map ranged over by the instrumented packages while the transaction
+	// under test runs is a data choice of the explorer (ascending or descending keys); one deviating map per execution
+	MapOrder bool
+	// OnlyMapOrder: the scenario takes part in the map-order phase only
+	OnlyMapOrder bool
 }
 
 func c17Scenarios() []c17Scenario {
@@ -75,6 +84,15 @@ func c17Scenarios() []c17Scenario {
 		c17Scenario{Name: "tree:mandatory-of-other-intent", TreeLevel: true, Running: []Leaf{leaf("r", "sys", "hostname")}, Setup: []Op{one(A("c17m"))}, Test: one(B("c17v"))},
 		c17Scenario{Name: "bare:lazy-indexes mandatory+leafref", TreeLevel: true, Bare: true, Running: run2, Setup: []Op{one(A("c17m"))}, Test: one(B("c17v"))},
 	)
+	scs = append(scs,
+		// two must expressions in different validator goroutines need the same default (sys/mtu) in a container nobody
+		// instantiated: both load it, and its schema, on demand
+		c17Scenario{Name: "two-musts-default-on-demand", Running: nil, Test: one(A("c17g"))},
+		// a leafref without key predicate (/if/name) while other entries of the list are being removed and have no
+		// running variant any more: the candidates come from a map
+		c17Scenario{Name: "leafref-among-removed-entries", OnlyMapOrder: true, Running: nil, Setup: []Op{one(A("c17i3"))},
+			DropRunning: []Path{P("if", e2), P("if", K{"name", "e3"})}, Test: one(A("c17i1"))},
+	)
 	if Tier() == "thorough" {
 		scs = append(scs,
 			c17Scenario{Name: "tree:mandatory-missing+leafref", TreeLevel: true, Running: run2, Setup: []Op{one(A("vmm"))}, Test: one(B("c17v"), C("c17c"))},
@@ -82,7 +100,27 @@ func c17Scenarios() []c17Scenario {
 			c17Scenario{Name: "three-intents", Running: run2, Test: one(A("c17a"), B("c17c"), C("c17e"))},
 		)
 	}
-	return scs
+	// map-order phase: the same transactions with the default schedule and one map iterated in descending order
+	n := len(scs)
+	for i := 0; i < n; i++ {
+		m := scs[i]
+		m.Name = "maporder:" + m.Name
+		m.MapOrder = true
+		// at tree level: the intents are inserted in the order of the request (the datastore iterates a map of intents in
+		// an order the explorer does not control) and the map-order points are those of tree construction and validation
+		m.TreeLevel = true
+		scenarioPB[m.Name] = 0
+		scenarioDB[m.Name] = 1
+		scs = append(scs, m)
+	}
+	var res []c17Scenario
+	for _, sc := range scs {
+		if sc.OnlyMapOrder && !sc.MapOrder {
+			continue
+		}
+		res = append(res, sc)
+	}
+	return res
 }
 
 func c17Fragments() map[string]*Fragment {
@@ -98,6 +136,10 @@ func c17Fragments() map[string]*Fragment {
 	add("c17m", leaf("m", "mand", m1, "m"), leaf("m", "dk", K{"zk", "z1"}, K{"ak", "a1"}, "m"))
 	add("c17v", leaf("v", "mand", m1, "v"), leaf("v", "dk", K{"zk", "z1"}, K{"ak", "a1"}, "v"))
 	_, _ = m2, m3
+	add("c17g", leaf("g", "refs", "guard"), leaf("h", "refs", "guard2"))
+	e3 := K{"name", "e3"}
+	add("c17i3", leaf("one", "if", e1, "descr"), leaf("two", "if", e2, "descr"), leaf("three", "if", e3, "descr"))
+	add("c17i1", leaf("one", "if", e1, "descr"), leaf("e1", "refs", "uplink"))
 	add("c17f", leaf("5000", "if", e1, "unit", K{"id", "2"}, "vlan"), leaf("e7", "if", e1, "unit", K{"id", "2"}, "peer"), leaf("x", "if", e2, "descr"))
 	return fr
 }
@@ -129,6 +171,7 @@ func c17Verdict(w *World, out *Outcome) string {
 }
 
 func c17Run(u *Universe, sc c17Scenario, concurrent bool) (*World, *Outcome, error) {
+	verifrt.MapOrderChoices = false
 	cc, err := c17Cache.Get()
 	if err != nil {
 		return nil, nil, err
@@ -148,7 +191,18 @@ func c17Run(u *Universe, sc c17Scenario, concurrent bool) (*World, *Outcome, err
 			return nil, nil, fmt.Errorf("set-up step %v failed: %v %v", op, o.Err, o.Panic)
 		}
 	}
+	if len(sc.DropRunning) > 0 {
+		var dels [][]string
+		for _, p := range sc.DropRunning {
+			dels = append(dels, utils.ToStrings(p.Sdcpb(), false, false))
+		}
+		if err := w.Raw.Modify(context.Background(), w.Name, &cache.Opts{Store: cachepb.Store_CONFIG}, dels, nil); err != nil {
+			return nil, nil, err
+		}
+	}
 	val.DisableConcurrency = !concurrent
+	verifrt.MapOrderChoices = sc.MapOrder
+	defer func() { verifrt.MapOrderChoices = false }()
 	if sc.TreeLevel {
 		out, err := c17TreeLevel(w, sc.Test, val, sc.Bare)
 		return w, out, err
@@ -363,7 +417,15 @@ func runC17() int {
 		return code
 	}
 	racePass := c17RacePass(rep)
-	return rep.Finish(tot.coverage(map[string]any{"scenarios": len(scs), "supplementary_free_running_race_pass": racePass}))
+	mo := 0
+	for _, sc := range scs {
+		if strings.HasPrefix(sc.Name, "maporder:") {
+			mo++
+		}
+	}
+	return rep.Finish(tot.coverage(map[string]any{"scenarios": len(scs), "supplementary_free_running_race_pass": racePass,
+		"map_order_phase": map[string]any{"scenarios": mo, "preemption_bound": 0, "deviation_bound": 1,
+			"what": "tree-level runs of the same transactions with the default schedule in which the iteration order of one map (every map ranged over in pkg/tree, pkg/types and the schema client, one at a time) is descending instead of ascending; covers both relative orders of every pair of entries of every map"}}))
 }
 
 // c17RacePass runs bin/vcheck-race (un-instrumented -race build of the same scenario bodies, real goroutines) and
